@@ -15,6 +15,8 @@ from .values import *
 
 VERIF = os.path.dirname(os.path.dirname(os.path.abspath(__file__)))
 REPO = os.environ.get('VERIF_REPO', '/repo')
+# evidence of a run against a tree other than /repo (seeded-change trials) must not overwrite the real evidence
+EVIDENCE = os.environ.get('VERIF_EVIDENCE_DIR') or (os.path.join(os.path.dirname(os.path.dirname(os.path.abspath(__file__))), 'evidence') if os.path.realpath(os.environ.get('VERIF_REPO', '/repo')) == '/repo' else '/tmp/verif-evidence-alt')
 BUILD = os.path.join(VERIF, '.build')
 
 
@@ -46,7 +48,8 @@ def mir_dump(log=None):
         if os.path.exists(out) and os.path.getsize(out) > 100000:
             return out, th, 0.0
         t = time.time()
-        for old in glob.glob(os.path.join(BUILD, 'walrus-*.mir')):
+        olds = sorted(glob.glob(os.path.join(BUILD, 'walrus-*.mir')), key=os.path.getmtime)
+        for old in olds[:-3]:          # keep the three most recent dumps (trials on scratch worktrees alternate with /repo)
             try:
                 os.remove(old)
             except OSError:
@@ -308,8 +311,8 @@ def finish(report, ctx, level, explanation, trusted_base, checker_cmd):
         'wall_s': round(time.time() - report.t0, 2),
         'violations': len(new_viol),
     }
-    os.makedirs(os.path.join(VERIF, 'evidence'), exist_ok=True)
-    with open(os.path.join(VERIF, 'evidence', report.pid + '.json'), 'w') as f:
+    os.makedirs(EVIDENCE, exist_ok=True)
+    with open(os.path.join(EVIDENCE, report.pid + '.json'), 'w') as f:
         json.dump(ev, f, indent=1, default=str)
     print('%s tier=%s obligations=%d discharged=%d violated=%d inconclusive=%d queries=%d solver_s=%.1f wall_s=%.1f' % (
         report.pid, report.tier, n, d, v, inc, report.queries + tot.get('queries', 0), report.solver_s + tot.get('qtime', 0.0), time.time() - report.t0))
